@@ -42,18 +42,18 @@ package bip39
 
 //@ func Language.String
 //@   strings native
-//@   ensures [C16] name: implies(supported(i), result == declName(i))
-//@   ensures [C16] other: implies(!supported(i), result == cat(cat("Language(", itoa(i)), ")"))
+//@   ensures [C16,C13] name: implies(supported(i), result == declName(i))
+//@   ensures [C16,C13] other: implies(!supported(i), result == cat(cat("Language(", itoa(i)), ")"))
 
 //@ func Language.list
-//@   ensures [C01,C02,C05,C08,C14] shape: ref(result) == wlref(effLang(lan)) && off(result) == 0 && len(result) == 2048
+//@   ensures [C01,C02,C05,C06,C07,C08,C09,C13,C14] shape: ref(result) == wlref(effLang(lan)) && off(result) == 0 && len(result) == 2048
 
 //@ func NewMnemonicByEntropy
-//@   ensures [C09,C01,C02,C05] gate: (err == nil) == validLen(len(entropy))
-//@   ensures [C09] reject: implies(!validLen(len(entropy)), result == "" && is(err, ErrEntropyLen))
+//@   ensures [C09,C01,C02,C05,C13] gate: (err == nil) == validLen(len(entropy))
+//@   ensures [C09,C13] reject: implies(!validLen(len(entropy)), result == "" && is(err, ErrEntropyLen))
 //@   ensures [C09] nonempty: implies(err == nil, result != "")
 //@   ghost ws SSeq = fromEntropy_ws
-//@   ensures [C01,C02,C05] enc: implies(validLen(len(entropy)), result == join(ws, sepOf(lang)) && slen(ws) == 3*len(entropy)/4)
+//@   ensures [C01,C02,C05,C13] enc: implies(validLen(len(entropy)), result == join(ws, sepOf(lang)) && slen(ws) == 3*len(entropy)/4)
 //@   ensures [C01,C02,C05] words: implies(validLen(len(entropy)) && supported(lang), forall(j, 0, slen(ws), sat(ws, j) == lst(lang, digit(V(old(bytes(entropy))), slen(ws)-1-j))))
 //@   ensures [C13] wordsAny: implies(validLen(len(entropy)), forall(j, 0, slen(ws), sat(ws, j) == lst(effLang(lang), digit(V(old(bytes(entropy))), slen(ws)-1-j))))
 //@   ensures [C13] pure: unchanged(entropy)
@@ -62,8 +62,8 @@ package bip39
 //@   requires validLen(len(entropy)) && wordLen == 3*len(entropy)/4
 //@   split len(entropy) in {16,20,24,28,32} at entry
 //@   ghost ws SSeq = seq(wordList)
-//@   ensures [C01,C02,C05] enc: result == join(ws, sepOf(lg)) && slen(ws) == wordLen
-//@   ensures [C01,C02,C05] words: implies(supported(lg), forall(j, 0, wordLen, sat(ws, j) == lst(lg, digit(V(old(bytes(entropy))), wordLen-1-j))))
+//@   ensures [C01,C02,C05,C06,C07,C09,C13] enc: result == join(ws, sepOf(lg)) && slen(ws) == wordLen
+//@   ensures [C01,C02,C05,C06,C07] words: implies(supported(lg), forall(j, 0, wordLen, sat(ws, j) == lst(lg, digit(V(old(bytes(entropy))), wordLen-1-j))))
 //@   ensures [C09] nonempty: forall(j, 0, wordLen, sat(ws, j) != "")
 //@   ensures [C13] wordsAny: forall(j, 0, wordLen, sat(ws, j) == lst(effLang(lg), digit(V(old(bytes(entropy))), wordLen-1-j)))
 //@   loop 1 assigns BigVal[entInt], BigVal[wordIdx], SMem[wordList]
@@ -227,8 +227,8 @@ package bip39
 //@   ensures [C09] nonempty: implies(err == nil, result != "")
 
 //@ func MnemonicToSeed
-//@   ensures [C04] fresh: fresh(result) && len(result) == 64 && off(result) == 0
-//@   ensures [C04,C11] value: bytes(result) == pbkdf2(bytesOf(nfkd(mnemonic)), bcat(bytesOf("mnemonic"), bytesOf(nfkd(passphrase))), 2048, 64, 512)
+//@   ensures [C04,C13] fresh: fresh(result) && len(result) == 64 && off(result) == 0
+//@   ensures [C04,C11,C13] value: bytes(result) == pbkdf2(bytesOf(nfkd(mnemonic)), bcat(bytesOf("mnemonic"), bytesOf(nfkd(passphrase))), 2048, 64, 512)
 
 // ---------------------------------------------------------------------------
 // relational properties as ghost clients (verif_lemmas.go)
